@@ -32,6 +32,17 @@ class Script:
     def __init__(self, runtime=False):
         self.lines = list(HEADER)
         self.routing = runtime if isinstance(runtime, str) else ("rt" if runtime else "lit")
+        # "fnq": literal arguments; the state queries after every call are made by a helper that is defined ABOVE the device's
+        # first command (what a query returns depends on when it runs, not on where its text stands)
+        self.fnq = self.routing == "fnq"
+        if self.fnq:
+            self.routing = "lit"
+        self.qdefs: set = set()
+        # "rti": like "rt", but the sensor read stands IN the argument position (an argument is evaluated exactly once: a second
+        # evaluation would consume the next scripted reading and shift every later one)
+        self.inline = self.routing == "rti"
+        if self.inline:
+            self.routing = "rt"
         self.runtime = self.routing == "rt"
         self.feed: list[int] = []
         self.nvar = 0
@@ -49,6 +60,8 @@ class Script:
         if r == "lit" or (r == "rt" and not isinstance(v, int)):
             return repr(v)
         self.nvar += 1
+        if r == "rt" and self.inline:
+            return self._read(v)
         if r == "rt":
             name = f"rv{self.nvar}"
             self.lines.append(f"{name} = {self._read(v)}")
@@ -119,9 +132,17 @@ class Script:
     def mark(self, inst: int, k: int, getters: list[str]) -> None:
         """Serial marker after call k of instance inst, followed by the state queries.  In the run-time rendering the
         queries are first stored in variables (a state query keeps its value - and its type - when it is assigned)."""
+        if self.fnq and getters:
+            if inst not in self.qdefs:
+                self.qdefs.add(inst)
+                self.lines.append(f"def q{inst}():")
+                self.lines += [f"    mon.write({g})" for g in getters]
+            self.lines.append(f'mon.write("#{inst}.{k}")')
+            self.lines.append(f"q{inst}()")
+            return
         self.lines.append(f'mon.write("#{inst}.{k}")')
         for j, g in enumerate(getters):
-            if self.routing == "rt":
+            if self.routing == "rt" and not self.inline:
                 self.ngv = getattr(self, "ngv", 0) + 1
                 self.lines.append(f"gq{self.ngv} = {g}")
                 self.lines.append(f"mon.write(gq{self.ngv})")
